@@ -68,16 +68,16 @@ def local_traces(events, id_of, tid0=1):
             init[c] = {0}
         parent = {i: max(i - 1, 0) for i in sorted(set(id_of.values()))}
 
+        last = {str(c): (False, False, []) for c in conn_id.values()}
+
         def proj(post):
             ps = post["peers"]
-            waiting = {str(c): False for c in conn_id.values()}
-            backoff = {str(c): False for c in conn_id.values()}
-            inv = {str(c): [] for c in conn_id.values()}
-            open_ = []
+            # a connection that has gone (closed) keeps its last observed bookkeeping: Net has no disconnects
             for k, v in ps.items():
-                c = str(conn_id[k])
-                waiting[c], backoff[c] = v["waiting"], v["backoff"]
-                inv[c] = [[id_of.get(h, -5) for h in m] for m in v["inv"]]
+                last[str(conn_id[k])] = (v["waiting"], v["backoff"], [[id_of.get(h, -5) for h in m] for m in v["inv"]])
+            waiting = {c: last[c][0] for c in last}
+            backoff = {c: last[c][1] for c in last}
+            inv = {c: last[c][2] for c in last}
             n = {"has": sorted(id_of.get(h, -5) for h in post["has"]), "head": id_of.get(post["head"], -5),
                  "pool": [1 for _ in post["pool"]], "waiting": waiting, "backoff": backoff, "inv": inv,
                  "fetching": [conn_id[k] for k in post["fetching"] if k in conn_id],
